@@ -23,6 +23,7 @@ import numpy as np
 
 MAX_OUT = 6000
 MAX_TERMS = 60000
+MAX_PROGRAM_TERMS = 120000  # whole-program runs: sparse-table entries sent to the driver
 
 
 class Unsupported(Exception):
@@ -347,4 +348,285 @@ def compare(inst, rng, model):
         if lean.shape != ref.shape or not np.array_equal(lean, ref):
             bad = int(np.argmax(lean != ref)) if lean.shape == ref.shape else -1
             return "mismatch", {"what": f"value ({pname} part)", "entry": bad, "jax": ref[:8].tolist(), "lean": lean[:8].tolist(), "row": rows[bad] if bad >= 0 else None}
+    return "ok", None
+
+
+# ---------------------------------------------------------------------------------------------------------------
+# round 3: the other classes of the family and whole programs (`runfam`)
+
+
+def _bcast_pairs(su, sv):
+    shape = np.broadcast_shapes(su, sv)
+    U = np.broadcast_to(np.arange(int(np.prod(su)), dtype=np.int64).reshape(su), shape).ravel()
+    V = np.broadcast_to(np.arange(int(np.prod(sv)), dtype=np.int64).reshape(sv), shape).ravel()
+    return U, V, tuple(shape)
+
+
+def _dot_general_rows(su, sv, dn):
+    (lc, rc), (lb, rb) = dn
+    lc, rc, lb, rb = tuple(lc), tuple(rc), tuple(lb), tuple(rb)
+    L = np.arange(int(np.prod(su)), dtype=np.int64).reshape(su)
+    R = np.arange(int(np.prod(sv)), dtype=np.int64).reshape(sv)
+    lf = [d for d in range(len(su)) if d not in lc + lb]
+    rf = [d for d in range(len(sv)) if d not in rc + rb]
+    Lm = np.transpose(L, list(lb) + lf + list(lc))
+    Rm = np.transpose(R, list(rb) + rf + list(rc))
+    B = int(np.prod([su[d] for d in lb])) if lb else 1
+    FL = int(np.prod([su[d] for d in lf])) if lf else 1
+    FR = int(np.prod([sv[d] for d in rf])) if rf else 1
+    Lm, Rm = Lm.reshape(B, FL, -1), Rm.reshape(B, FR, -1)
+    rows = [[(int(a), int(b_), 1.0) for a, b_ in zip(Lm[b, i], Rm[b, j])] for b in range(B) for i in range(FL) for j in range(FR)]
+    oshape = tuple(su[d] for d in lb) + tuple(su[d] for d in lf) + tuple(sv[d] for d in rf)
+    return rows, oshape
+
+
+def _conv_rows(su, sv, p, oshape):
+    """XLA conv_general_dilated (a correlation): out[n,o,s] = Σ_{c,k} lhs'[n, g·Cg + c, s·stride + k·rdil] · rhs[o,c,k]
+    where lhs' is lhs dilated by `lhs_dilation` and padded, g the feature group of o"""
+    if int(p.get("batch_group_count", 1)) != 1:
+        raise Unsupported("conv with batch groups")
+    dn = p["dimension_numbers"]
+    ls, rs, os_ = tuple(dn.lhs_spec), tuple(dn.rhs_spec), tuple(dn.out_spec)
+    nsp = len(ls) - 2
+    strides = tuple(p["window_strides"])
+    pads = tuple(tuple(int(t) for t in q) for q in p["padding"])
+    ldil = tuple(p.get("lhs_dilation") or (1,) * nsp)
+    rdil = tuple(p.get("rhs_dilation") or (1,) * nsp)
+    G = int(p.get("feature_group_count", 1))
+    N, C = su[ls[0]], su[ls[1]]
+    O, Cg = sv[rs[0]], sv[rs[1]]
+    if C != Cg * G:
+        raise Unsupported("conv feature groups")
+    Lidx = np.arange(int(np.prod(su)), dtype=np.int64).reshape(su)
+    Ridx = np.arange(int(np.prod(sv)), dtype=np.int64).reshape(sv)
+    osp = tuple(oshape[d] for d in os_[2:])
+    ksp = tuple(sv[d] for d in rs[2:])
+    isp = tuple(su[d] for d in ls[2:])
+    rows = [None] * int(np.prod(oshape))
+    ostr = np.cumprod((1,) + tuple(oshape[::-1]))[:-1][::-1]
+    for n in range(N):
+        for o in range(O):
+            g = o // (O // G)
+            for s in np.ndindex(osp):
+                terms = []
+                for c in range(Cg):
+                    for k in np.ndindex(ksp):
+                        li = [0] * len(su)
+                        li[ls[0]], li[ls[1]] = n, g * Cg + c
+                        ok = True
+                        for d in range(nsp):
+                            pos = s[d] * strides[d] + k[d] * rdil[d] - pads[d][0]
+                            if pos < 0 or pos % ldil[d] != 0 or pos // ldil[d] >= isp[d]:
+                                ok = False
+                                break
+                            li[ls[2 + d]] = pos // ldil[d]
+                        if not ok:
+                            continue
+                        ri = [0] * len(sv)
+                        ri[rs[0]], ri[rs[1]] = o, c
+                        for d in range(nsp):
+                            ri[rs[2 + d]] = k[d]
+                        terms.append((int(Lidx[tuple(li)]), int(Ridx[tuple(ri)]), 1.0))
+                oi = [0] * len(oshape)
+                oi[os_[0]], oi[os_[1]] = n, o
+                for d in range(nsp):
+                    oi[os_[2 + d]] = s[d]
+                rows[int(np.dot(oi, ostr))] = terms
+    return rows, tuple(oshape)
+
+
+def table_of(inst, out_shape=None):
+    """-> (kind, table, out_shape) for one primitive instance; kind in lin | bil | div | re | none (conj)"""
+    import jaxpr_ir as ir
+
+    name = inst["name"].split("#")[0]
+    cls = inst["cls"]
+    avals, dpos = inst["avals"], inst["dpos"]
+    if inst.get("nout", 1) != 1:
+        raise Unsupported("multi-output")
+    shapes = [tuple(avals[i][0]) for i in dpos]
+    if cls == ir.LINALL:
+        if name == "complex":
+            n = int(np.prod(shapes[0]))
+            return "lin", [[(0, i, 1.0), (1, i, 1j)] for i in range(n)], shapes[0]
+        rows, oshape = rows_of(inst)
+        return "lin", rows, oshape
+    if cls == ir.BIL:
+        if name == "mul":
+            U, V, oshape = _bcast_pairs(*shapes)
+            return "bil", [[(int(a), int(b), 1.0)] for a, b in zip(U, V)], oshape
+        if name == "dot_general":
+            rows, oshape = _dot_general_rows(shapes[0], shapes[1], inst["params"]["dimension_numbers"])
+            return "bil", rows, oshape
+        if name == "conv_general_dilated":
+            if out_shape is None:
+                raise Unsupported("conv without output shape")
+            rows, oshape = _conv_rows(shapes[0], shapes[1], inst["params"], tuple(out_shape))
+            return "bil", rows, oshape
+        raise Unsupported(name)
+    if cls == ir.DIV:
+        if name != "div":
+            raise Unsupported(name)
+        U, V, oshape = _bcast_pairs(*shapes)
+        return "div", [(int(a), int(b)) for a, b in zip(U, V)], oshape
+    if cls == ir.REAL:
+        n = int(np.prod(shapes[0]))
+        if name in ("real", "convert_element_type[c->r]"):
+            return "re", [[(i, 1.0)] for i in range(n)], shapes[0]
+        if name == "imag":
+            return "re", [[(i, -1j)] for i in range(n)], shapes[0]
+        raise Unsupported(name)
+    if cls == ir.CONJ:
+        return "none", None, shapes[0]
+    raise Unsupported("class " + str(cls))
+
+
+_CHEAP_LIN = {"add", "add_any", "sub", "neg", "copy", "device_put", "convert_element_type", "copy_p", "slice", "rev", "transpose", "squeeze", "expand_dims",
+              "broadcast_in_dim", "concatenate", "pad", "reduce_sum", "cumsum", "select_n", "dynamic_slice", "dynamic_update_slice", "gather", "gather[fill]",
+              "scatter-add", "scatter_add", "scatter", "fft", "complex", "scan[ys-stack]", "scan[xs-index]", "pmap[in-slice]", "pmap[out-stack]", "reshape"}
+
+
+def supported(inst) -> bool:
+    """cheap version of "table_of(inst) does not raise Unsupported" (used to classify every translated program)"""
+    import jaxpr_ir as ir
+
+    name = inst["name"].split("#")[0]
+    cls = inst["cls"]
+    if inst.get("nout", 1) != 1 or inst.get("offset") or any(i not in inst["pvals"] for i in inst["ppos"]):
+        return False
+    if any(np.dtype(inst["avals"][i][1]).kind not in "fc" for i in inst["dpos"]):
+        return False
+    if cls == ir.LINALL:
+        if name == "reshape" and inst["params"].get("dimensions") is not None:
+            return False
+        if name == "fft":
+            return getattr(inst["params"]["fft_type"], "name", str(inst["params"]["fft_type"])).split(".")[-1] in ("FFT", "IFFT", "RFFT")
+        return name in _CHEAP_LIN
+    if cls == ir.BIL:
+        return name in ("mul", "dot_general") or (name == "conv_general_dilated" and int(inst["params"].get("batch_group_count", 1)) == 1)
+    if cls == ir.DIV:
+        return name == "div"
+    if cls == ir.REAL:
+        return name in ("real", "imag", "convert_element_type[c->r]")
+    return cls == ir.CONJ
+
+
+def program_in_family(prog) -> bool:
+    """every equation of a program translated with keep=True is a literal or an instance of the proved family"""
+    return all(ex[0] == "lit" or supported(ex[1]) for ex in prog.exec)
+
+
+def _cf(v):
+    import common
+
+    v = complex(v)
+    return [common.f2b(float(v.real)), common.f2b(float(v.imag))]
+
+
+def run_program(prog, leaves, model, out_avals):
+    """Lean's `run` of the whole program under the family interpretation (driver op `runfam`) on the input leaves
+    -> list of complex numpy arrays (one per output leaf).  Raises Unsupported when an equation is outside the family."""
+    import common
+
+    tabs, eqns = [], []
+    total = [0]
+    shapes = {}  # vid -> shape of the value (needed for the output shape of conv)
+    for i, l in enumerate(leaves):
+        shapes[i] = tuple(np.shape(l))
+    for k, ((cls, pname, pids, dids), ex) in enumerate(zip(prog.eqns, prog.exec)):
+        vid = prog.nin + k
+        if ex[0] == "lit":
+            val = np.asarray(ex[1])
+            if val.dtype.kind not in "fciub":
+                raise Unsupported("opaque literal")
+            tabs.append(["lit", [_cf(v) for v in val.ravel()]])
+            shapes[vid] = tuple(val.shape)
+            eqns.append([cls, k, [], []])
+            continue
+        inst = ex[1]
+        oshape = None
+        if inst["name"].split("#")[0] == "conv_general_dilated":
+            import jax
+
+            with jax.ensure_compile_time_eval():
+                import jax.numpy as jnp
+
+                oshape = jax.eval_shape(lambda a, b: inst["prim"].bind(a, b, **inst["params"]), *[jax.ShapeDtypeStruct(inst["avals"][i][0], inst["avals"][i][1]) for i in inst["dpos"]]).shape
+        # size guard before the (Python-level) construction of the table
+        est = int(np.prod(oshape)) if oshape is not None else max([int(np.prod(inst["avals"][i][0])) for i in inst["dpos"]] + [1])
+        if est > MAX_OUT:
+            raise Unsupported("too-large")
+        kind, table, osh = table_of(inst, oshape)
+        shapes[vid] = tuple(osh)
+        total[0] += sum(len(r) for r in table) if kind in ("lin", "bil", "re") else (len(table) if kind == "div" else 0)
+        if total[0] > MAX_PROGRAM_TERMS:
+            raise Unsupported("too-large")
+        if kind == "lin":
+            tabs.append(["lin", [[[a, b, _cf(c)] for a, b, c in r] for r in table]])
+            eqns.append([cls, k, [], list(dids)])  # parameter operands are baked into the table
+        elif kind == "bil":
+            tabs.append(["bil", [[[a, b, _cf(c)] for a, b, c in r] for r in table]])
+            eqns.append([cls, k, [], list(dids)])
+        elif kind == "div":
+            tabs.append(["div", [[a, b] for a, b in table]])
+            eqns.append([cls, k, [], list(dids)])
+        elif kind == "re":
+            tabs.append(["re", [[[a, _cf(c)] for a, c in r] for r in table]])
+            eqns.append([cls, k, [], list(dids)])
+        else:
+            tabs.append(["none"])
+            eqns.append([cls, k, [], list(dids)])
+    sizes = [int(np.prod(s)) for s, _ in out_avals]
+    x = [[_cf(v) for v in np.asarray(l).ravel()] for l in leaves]
+    res = model.call("runfam", nin=prog.nin, eqns=eqns, outs=list(prog.outs), tabs=tabs, x=x, sizes=sizes)
+    outs = []
+    for r, (s, _) in zip(res, out_avals):
+        a = np.array([complex(common.b2f(t[0]), common.b2f(t[1])) for t in r], dtype=np.complex128).reshape(s)
+        outs.append(a)
+    return outs
+
+
+def _conv_out_shape(inst):
+    import jax
+
+    return jax.eval_shape(lambda a, b: inst["prim"].bind(a, b, **inst["params"]), *[jax.ShapeDtypeStruct(inst["avals"][i][0], inst["avals"][i][1]) for i in inst["dpos"]]).shape
+
+
+def compare_any(inst, rng, model):
+    """single equation of the bilinear / quotient / real-part / conj classes: JAX primitive == Lean `famDen` (driver op
+    `runfam` on a one-equation program) on random dyadic operands.  -> like `compare`"""
+    import common
+    import jax.numpy as jnp
+    import jaxpr_table as tb
+
+    try:
+        oshape = _conv_out_shape(inst) if inst["name"].split("#")[0] == "conv_general_dilated" else None
+        kind, table, osh = table_of(inst, oshape)
+    except Unsupported as e:
+        return "unsupported:" + str(e).split(" ")[0], None
+    nterms = sum(len(r) for r in table) if kind in ("bil", "re", "lin") else 0
+    if int(np.prod(osh)) > MAX_OUT or nterms > MAX_TERMS:
+        return "too-large", None
+    avals, dpos = inst["avals"], inst["dpos"]
+    data = [tb._rand(rng, avals[i][0], avals[i][1], nonzero=(inst["cls"] == "divLike" and k == 1)) for k, i in enumerate(dpos)]
+    ops = [None] * len(avals)
+    for i, d in zip(dpos, data):
+        ops[i] = jnp.asarray(d, dtype=avals[i][1])
+    got = np.asarray(tb.bind_instance(inst, ops)[0])
+    if kind in ("lin", "bil"):
+        tab = [kind, [[[a, b, _cf(c)] for a, b, c in r] for r in table]]
+    elif kind == "div":
+        tab = ["div", [[a, b] for a, b in table]]
+    elif kind == "re":
+        tab = ["re", [[[a, _cf(c)] for a, c in r] for r in table]]
+    else:
+        tab = ["none"]
+    n = len(dpos)
+    res = model.call("runfam", nin=n, eqns=[[inst["cls"], 0, [], list(range(n))]], outs=[n], tabs=[tab], x=[[_cf(v) for v in np.asarray(d).ravel()] for d in data],
+                     sizes=[int(got.size)])
+    lean = np.array([complex(common.b2f(t[0]), common.b2f(t[1])) for t in res[0]], dtype=np.complex128)
+    ref = np.asarray(got, dtype=np.complex128).ravel()
+    tol = 1e-5 if np.dtype(got.dtype).itemsize <= (8 if np.iscomplexobj(got) else 4) else 1e-11
+    if lean.shape != ref.shape or not np.allclose(lean, ref, rtol=tol, atol=tol):
+        return "mismatch", {"what": "value", "jax": [repr(complex(v)) for v in ref[:6]], "lean": [repr(complex(v)) for v in lean[:6]]}
     return "ok", None
